@@ -9,10 +9,16 @@ Definition fl_step (c : cfgT) (f : fsT) (ms : list mount) (ds : list device)
   let '(num, bad, missing) := acc in
   if negb (exists_ f (x_mount x)) then (num, bad, true)
   else if is_abs (x_source x) && negb (exists_ f (x_source x))
-          && negb (in_any_layer_dir 64 (c_layers c) (x_source x)) then (num, bad, true)
+          && negb (in_any_layer_dir 64 (c_layers c) (x_source x))
+  then (num, bad || match get_mount ms (x_mount x) with Some _ => true | None => false end, true)
   else match get_mount ms (x_mount x) with
        | None => acc
-       | Some mnt => (num + 1, bad || negb (source_is_expected ds mnt (x_source x)), missing)
+       | Some mnt =>
+         let is_bind := beq (x_fstype x) (bs "bind") || beq (x_fstype x) (bs "rbind") in
+         (num + 1,
+          bad || negb (source_is_expected ds mnt (x_source x))
+              || (negb is_bind && negb (beq (m_fstype mnt) (x_fstype x))),
+          missing)
        end.
 
 Definition fl_estep (f : fsT) (builddir : bytes) (acc : bool * bool) (x : xmount) : bool * bool :=
@@ -147,21 +153,17 @@ Proof. rewrite find_layerstate_eq. repeat split. Qed.
 
 (* ------------------------------------------------------------------ probe_layer *)
 Lemma probe_layer_order c f um ld n : ld_order (probe_layer c f um ld n) = ld_order ld.
-Proof.
-  unfold probe_layer. destruct (lm_get (ld_map ld) n) as [l|]; [|reflexivity].
-  destruct (l_state l =? st_error); reflexivity.
-Qed.
+Proof. unfold probe_layer. destruct (lm_get (ld_map ld) n) as [l|]; reflexivity. Qed.
 Lemma probe_layer_probe c f um ld n : ld_probe (probe_layer c f um ld n) = ld_probe ld.
-Proof.
-  unfold probe_layer. destruct (lm_get (ld_map ld) n) as [l|]; [|reflexivity].
-  destruct (l_state l =? st_error); reflexivity.
-Qed.
+Proof. unfold probe_layer. destruct (lm_get (ld_map ld) n) as [l|]; reflexivity. Qed.
 
-(* the layer that probe_layer writes back *)
+(* the layer that probe_layer writes back: users and mounts are recorded for every layer, the
+   state is computed unless the layerconfig did not load cleanly *)
 Definition probed (c : cfgT) (f : fsT) (um : users_map) (ld : ldefs) (l : layer) : layer :=
   let l1 := set_kmounts (classify_users c l (users_of um (l_name l)))
               (mounts_at_or_below (ld_probe ld) (build_path c l)) in
-  if negb (is_dir f (build_path c l)) then set_state l1 st_incomplete
+  if l_state l =? st_error then l1
+  else if negb (is_dir f (build_path c l)) then set_state l1 st_incomplete
   else if (match l_base l with [] => false | _ => true end)
           && (negb (is_dir f (work_path c l)) || negb (is_dir f (upper_path c l)))
   then set_state l1 st_incomplete
@@ -171,8 +173,7 @@ Lemma probe_layer_eq c f um ld n :
   probe_layer c f um ld n =
   match lm_get (ld_map ld) n with
   | None => ld
-  | Some l => if l_state l =? st_error then ld
-              else MkLD (lm_set (ld_map ld) (probed c f um ld l)) (ld_order ld) (ld_probe ld)
+  | Some l => MkLD (lm_set (ld_map ld) (probed c f um ld l)) (ld_order ld) (ld_probe ld)
   end.
 Proof.
   unfold probe_layer. destruct (lm_get (ld_map ld) n) as [l|] eqn:E; [|reflexivity].
@@ -184,6 +185,7 @@ Proof.
   unfold probed.
   set (l1 := set_kmounts _ _).
   assert (H1 : lsim l l1) by (repeat split).
+  destruct (l_state l =? st_error); [exact H1|].
   destruct (negb (is_dir f (build_path c l))); [exact H1|].
   destruct (_ && _); [exact H1|].
   eapply lsim_trans; [|apply find_layerstate_lsim]. exact H1.
@@ -192,8 +194,7 @@ Qed.
 Lemma probe_layer_msim c f um ld n : msim (ld_map ld) (ld_map (probe_layer c f um ld n)).
 Proof.
   rewrite probe_layer_eq. destruct (lm_get (ld_map ld) n) as [l|] eqn:E; [|apply msim_refl].
-  destruct (l_state l =? st_error); [apply msim_refl|]. cbn [ld_map].
-  eapply msim_set; [exact E|apply probed_lsim].
+  cbn [ld_map]. eapply msim_set; [exact E|apply probed_lsim].
 Qed.
 
 Lemma fold_probe_order c f um ns : forall ld, ld_order (fold_left (probe_layer c f um) ns ld) = ld_order ld.
@@ -208,13 +209,13 @@ Qed.
 
 (* an invariant of the individual layers that probing establishes or keeps *)
 Lemma fold_probe_inv c f um (P : layer -> Prop) :
-  (forall ld l, P (probed c f um ld l)) ->
+  (forall ld l, P l -> P (probed c f um ld l)) ->
   forall ns ld, (forall l, In l (ld_map ld) -> P l) ->
   forall l, In l (ld_map (fold_left (probe_layer c f um) ns ld)) -> P l.
 Proof.
   intros HP. induction ns as [|n r IH]; intros ld H; cbn [fold_left]; [exact H|].
   apply IH. intros l. rewrite probe_layer_eq.
-  destruct (lm_get (ld_map ld) n) as [l0|]; [|apply H].
-  destruct (l_state l0 =? st_error); [apply H|]. cbn [ld_map].
-  intros Hin. apply lm_set_in in Hin as [->|Hin]; [apply HP|now apply H].
+  destruct (lm_get (ld_map ld) n) as [l0|] eqn:E; [|apply H]. cbn [ld_map].
+  intros Hin. apply lm_set_in in Hin as [->|Hin]; [|now apply H].
+  apply HP, H. now apply (lm_get_in _ n).
 Qed.
